@@ -127,6 +127,7 @@ Plan capacity_generate(uint64_t base, const std::string &prop, uint64_t index, i
         for (auto &o : p.ops) if ((o.code == W_BYTES || o.code == W_STRING_LEN || o.code == W_RAW) && ro.chance(1, 6)) o.c = 1 + (int64_t)ro.below(ro.chance(1, 2) ? 3 : 20);      // value prepared in place, 0..19 bytes ahead
         p.note = "token soup";
     }
+    { Rng rs = r.fork("selfsource"); if (!p.ops.empty() && rs.chance(1, 8)) { Op o = mk(W_RAW, (int64_t)(rs.chance(1, 2) ? 1 + rs.below(12) : 1 + rs.below(300)), Bytes(), -2); p.ops.insert(p.ops.begin() + 1 + (long)rs.below(p.ops.size()), o); } }   // re-embedding the head of one's own output
     { Rng rn = r.fork("nullptr"); for (auto &o : p.ops) if ((o.code == W_BYTES || o.code == W_STRING_LEN) && o.b.empty() && o.c == 0 && rn.chance(1, 2)) o.c = -1; }   // an empty value has no storage: NULL pointer, length 0
     if (prop == "C09") {
         // arbitrary further calls after the first failure, including ones that would fit, and the NULL error class
@@ -164,7 +165,15 @@ Result capacity_execute(const Plan &p, const ExecCtx &c) {
     // ---- reference
     std::vector<RefOp> ref; Bytes E; std::vector<size_t> bounds;     // bounds: piece start offsets
     bool has_null = p.P("null_init") != 0;
-    for (auto &o : p.ops) { ref.push_back(ref_of(o)); if (ref.back().null_error) has_null = true; for (auto &pc : ref.back().pieces) { bounds.push_back(E.size()); E.insert(E.end(), pc.begin(), pc.end()); } }
+    for (auto &o : p.ops) {
+        ref.push_back(ref_of(o)); if (ref.back().null_error) has_null = true;
+        if (o.code == W_RAW && o.c == -2) {      // the caller re-embeds the first o.a bytes of its own output (source = start of the writer's buffer)
+            size_t n = std::min((size_t)std::max<int64_t>(o.a, 0), E.size());
+            ref.back().pieces.clear(); ref.back().pieces.push_back(Bytes(E.begin(), E.begin() + (long)n));
+        }
+        for (auto &pc : ref.back().pieces) { bounds.push_back(E.size()); E.insert(E.end(), pc.begin(), pc.end()); } }
+    // a self-sourced raw write (c == -2) is executed with the exact length the reference decided on
+    auto selfsrc = [](const Op &o, const RefOp &ro) -> Op { if (o.code != W_RAW || o.c != -2) return o; Op x = o; x.a = ro.pieces.empty() ? 0 : (int64_t)ro.pieces[0].size(); return x; };
     size_t Sreal = E.size(), S = E.size();
     bool has_phantom = false;
     for (auto &ro : ref) if (ro.phantom) { S += ro.phantom; has_phantom = true; }
@@ -213,7 +222,7 @@ Result capacity_execute(const Plan &p, const ExecCtx &c) {
             if (p.ops[oi].code == W_COUNTER) { Outcome o = ws.call(p.ops[oi]); if (o.size_out != used) sink.fail("C04.counter.midway", fmt("cap=%zu: get_counter=%zu after %zu calls, reference size so far %zu", cap, o.size_out, oi, used)); continue; }
             bool was_failed = failed;
             bool want = apply_ref(ref[oi]);
-            Outcome o = ws.call(p.ops[oi]);
+            Outcome o = ws.call(selfsrc(p.ops[oi], ref[oi]));
             bool error_class_op = ref[oi].null_error || ref[oi].phantom;      // a call that must RAISE an error of the NULL / FORMAT class
             if (o.ret != want) sink.fail(was_failed ? "C09.writer.write_true_after_failure" : error_class_op ? "C09.writer.error_not_raised" : "C04.return", fmt("cap=%zu: call %zu (%s) returned %d, expected %d", cap, oi, OP_NAMES[p.ops[oi].code], o.ret, want));
             if (error_class_op && !was_failed && o.err == 0) sink.fail("C09.writer.error_not_raised", fmt("cap=%zu: call %zu (%s) must fail (NULL argument / length beyond the format's limit) but left the error indicator at NONE", cap, oi, OP_NAMES[p.ops[oi].code]));
@@ -238,7 +247,7 @@ Result capacity_execute(const Plan &p, const ExecCtx &c) {
             for (size_t oi = 0; oi < p.ops2.size() && !sink.failed(); oi++) {
                 bool was_failed = failed;
                 bool want = apply_ref(ref2[oi]);
-                Outcome o = ws.call(p.ops2[oi]);
+                Outcome o = ws.call(selfsrc(p.ops2[oi], ref2[oi]));
                 if (was_failed) { any_after = true; bump(r.cnt, "capacity.writes_after_failure"); }
                 if (o.ret != want) sink.fail(was_failed ? "C09.writer.write_true_after_failure" : "C04.return", fmt("cap=%zu: follow-up call %zu (%s) returned %d, expected %d", cap, oi, OP_NAMES[p.ops2[oi].code], o.ret, want));
                 if (o.used != used) sink.fail(was_failed ? "C09.writer.counter_stopped" : "C04.counter", fmt("cap=%zu: counter=%zu after follow-up call %zu, reference %zu", cap, o.used, oi, used));
@@ -255,7 +264,7 @@ Result capacity_execute(const Plan &p, const ExecCtx &c) {
         ws.setup(p.prefill);
         ws.call(mk(W_INIT, (int64_t)S));
         bool all = true;
-        for (size_t oi = 0; oi < p.ops.size(); oi++) { if (p.ops[oi].code == W_COUNTER || p.ops[oi].code == W_VERIFY) continue; Outcome x = ws.call(p.ops[oi]); if (x.ret == ref[oi].refused) all = false; }
+        for (size_t oi = 0; oi < p.ops.size(); oi++) { if (p.ops[oi].code == W_COUNTER || p.ops[oi].code == W_VERIFY) continue; Outcome x = ws.call(selfsrc(p.ops[oi], ref[oi])); if (x.ret == ref[oi].refused) all = false; }
         if (!all || ws.err() != 0 || ws.counter() != S || (S && memcmp(ws.dest(), E.data(), S) != 0)) sink.fail("C04.retry", fmt("re-running the calls with a buffer of the reported size %zu did not succeed / fill it exactly (err=%s counter=%zu)", S, err_name(ws.err()), ws.counter()));
         points++;
     }
